@@ -189,7 +189,10 @@ class BoundConstraints:
         if self.is_feasible:
             return np.array([0])
         else:
-            return self.pcs.violation(x)
+            # The largest of the two one-sided violations of each bound, not
+            # their sum (they differ when the bounds are inconsistent).
+            x = np.asarray(x, dtype=float)
+            return np.maximum(np.maximum(self.xl - x, x - self.xu), 0.0)
 
     def project(self, x):
         """
